@@ -200,7 +200,7 @@ def group_fns(g: DeriveGroup, info: Optional[EnumInfo] = None) -> Dict[str, dict
                 if a.get("kind") == "fn" and a.get("def") and a.get("body"):
                     out[a["def"]] = a
         elif it.get("item") == "fn" and it.get("def") and it.get("body"):
-            out[it["def"]] = it
+            out[it["def"]] = it      # free helper fn of the derive
     return out
 
 
@@ -314,6 +314,43 @@ def parse_table_tree(info: EnumInfo, g: DeriveGroup) -> ParseTable:
             arms.append(ParseArm(lit, "exact" if a[0] == "seq" else "ci", o[1], {"body": o[1].node, "normalised": True}))
     reps = SE.string_reps(SE.atoms(tree))
     outcomes = [(kind, s, classify_parse_leaf(SE.run(tree, {"s": s}))) for kind, s in reps]
+    # arms that can accept the same input (one ASCII-fold class) are ordered so that first-match semantics reproduces the
+    # function: a dispatch on length / first byte lists them bucket by bucket, which need not be their order of precedence
+    import itertools
+    by_class: Dict[str, List[ParseArm]] = {}
+    for a_ in arms:
+        by_class.setdefault(SE.ascii_fold(a_.lit), []).append(a_)
+    want_of = {s_: o_ for _k, s_, o_ in outcomes}
+    reordered: Dict[int, List[ParseArm]] = {}
+    for fc, group in by_class.items():
+        if len(group) < 2 or len(group) > 6:
+            continue
+        probe = [s_ for s_ in want_of if SE.ascii_fold(s_) == fc and not any(k_ == s_ for k_, _c in (phf_entries or []))]
+
+        def first_match(order, s_):
+            for a_ in order:
+                if (a_.mode == "exact" and a_.lit == s_) or (a_.mode == "ci" and SE.ascii_fold(a_.lit) == SE.ascii_fold(s_)):
+                    return ("variant", a_.ctor.adt, a_.ctor.variant)
+            return None
+        for perm in itertools.permutations(group):
+            if all((first_match(perm, s_) or _outcome_key(want_of[s_])) == _outcome_key(want_of[s_]) for s_ in probe):
+                if list(perm) != group:
+                    reordered[id(group[0])] = list(perm)
+                break
+    if reordered:
+        new_arms: List[ParseArm] = []
+        done = set()
+        for a_ in arms:
+            fc = SE.ascii_fold(a_.lit)
+            if fc in done:
+                continue
+            group = by_class[fc]
+            if id(group[0]) in reordered:
+                new_arms += reordered[id(group[0])]
+                done.add(fc)
+            else:
+                new_arms.append(a_)
+        arms = new_arms
     # the fall-through: what the strings that match nothing get (majority; the others are irregular)
     fts: Dict[Any, list] = {}
     for kind, s, o in outcomes:
